@@ -4,6 +4,7 @@ import os
 
 from ..core import astutil as A
 from ..core import cfg as CFG
+from ..core import match as M
 from ..core.model import dotted
 
 META = {
@@ -34,6 +35,10 @@ def run(ctx):
     r = P.func(MOD, "archive_to_fsobj")
     add = P.func(MOD, "add_contents_to_tarfile")
     obj = w.params()[0]
+    # the writer's TarInfo local, whatever it is called: the name bound to tarfile.TarInfo()
+    wt = M.one(w.node, "$t = tarfile.TarInfo()")
+    ctx.require(wt is not None, "fsobj_to_tarinfo: the TarInfo under construction not found")
+    tv = wt["t"]
     # ---- R1 kinds ----------------------------------------------------------------------------------
     wif = [n for n in w.node.body if isinstance(n, ast.If) and A.unparse(n.test).startswith(f"{obj}.is_")]
     ctx.require(wif, "fsobj_to_tarinfo: kind dispatch not found")
@@ -42,7 +47,7 @@ def run(ctx):
         if test is None:
             continue
         k = A.unparse(test).split(".")[-1]
-        types = [A.unparse(v) for st in body for t_, v, _ in A.assignments(ast.Module(body=[st], type_ignores=[])) if A.unparse(t_) == "t.type"]
+        types = [A.unparse(v) for st in body for t_, v, _ in A.assignments(ast.Module(body=[st], type_ignores=[])) if A.unparse(t_) == f"{tv}.type"]
         wkinds[k] = types
     loop = [n for n in A.body_walk(r.node) if isinstance(n, ast.For)]
     ctx.require(loop, "archive_to_fsobj: member loop not found")
@@ -68,42 +73,53 @@ def run(ctx):
     ctx.floor("R1", 12)
 
     # ---- R2 attributes ---------------------------------------------------------------------------------
-    wattrs = {t_.attr for t_, v, _ in A.assignments(w.node) if isinstance(t_, ast.Attribute) and A.unparse(t_.value) == "t"}
+    wattrs = {t_.attr for t_, v, _ in A.assignments(w.node) if isinstance(t_, ast.Attribute) and A.unparse(t_.value) == tv}
     rattrs = {n.attr for n in A.walk(r.node) if isinstance(n, ast.Attribute) and A.unparse(n.value) == mem and not (isinstance(getattr(n, "_parent", None), ast.Call) and n._parent.func is n)} - {"type"}
     for a in sorted((wattrs - {"type", "size"}) | rattrs):
         ctx.check("R2", r, a in wattrs and a in rattrs, f"attr:{a}", f"TarInfo.{a} is written and read back",
                   f"TarInfo.{a} is {'written but never read back' if a in wattrs else 'read by archive_to_fsobj but never written by fsobj_to_tarinfo (tarfile spells device numbers devmajor/devminor)'}", node=r.node)
     srcs = {}
     for t_, v, _ in A.assignments(w.node):
-        if isinstance(t_, ast.Attribute) and A.unparse(t_.value) == "t" and isinstance(v, ast.Attribute) and A.unparse(v.value) == obj:
+        if isinstance(t_, ast.Attribute) and A.unparse(t_.value) == tv and isinstance(v, ast.Attribute) and A.unparse(v.value) == obj:
             srcs[t_.attr] = v.attr
     want = {"linkname": "target", "devmajor": "major", "devminor": "minor", "mode": "mode", "uid": "uid", "gid": "gid", "mtime": "mtime", "name": "location"}
     for a, s in want.items():
         ctx.check("R2", w, srcs.get(a) == s, f"writer-source:{a}<-{srcs.get(a)}", f"t.{a} comes from the entry's {s}")
-    # reader: which member attr lands in which entry attribute
+    # reader: which member attr lands in which entry attribute.  The entry-attribute dict and the entry location are
+    # found by their ROLE in the entry constructors `fsXxx(<location>, ..., **<attrs>)`, not by their names.
+    ctors = [c for c in A.calls(loop[0]) if dotted(c.func) in {cls for _, cls in KIND.values()}]
+    dnames = {k.value.id for c in ctors for k in c.keywords if k.arg is None and isinstance(k.value, ast.Name)}
+    locnames = {c.args[0].id for c in ctors if c.args and isinstance(c.args[0], ast.Name)}
     dkeys = {}
-    for n in A.walk(r.node):
-        if isinstance(n, ast.Dict):
-            for k, v in zip(n.keys, n.values):
-                if isinstance(k, ast.Constant):
-                    dkeys[k.value] = A.unparse(v)
     for t_, v, _ in A.assignments(r.node):
-        if isinstance(t_, ast.Subscript) and A.unparse(t_.value) == "d" and isinstance(t_.slice, ast.Constant):
+        if isinstance(t_, ast.Name) and t_.id in dnames and isinstance(v, ast.Dict):
+            for k, v_ in zip(v.keys, v.values):
+                if isinstance(k, ast.Constant):
+                    dkeys[k.value] = A.unparse(v_)
+    for t_, v, _ in A.assignments(r.node):
+        if isinstance(t_, ast.Subscript) and isinstance(t_.value, ast.Name) and t_.value.id in dnames and isinstance(t_.slice, ast.Constant):
             dkeys.setdefault(t_.slice.value, A.unparse(v))
     for k, v in {"uid": f"{mem}.uid", "gid": f"{mem}.gid", "mtime": f"{mem}.mtime", "mode": f"{mem}.mode", "major": f"int({mem}.devmajor)", "minor": f"int({mem}.devminor)"}.items():
         ctx.check("R2", r, dkeys.get(k) == v, f"reader-source:{k}<-{dkeys.get(k)}", f"entry {k} comes from {v}")
     sym = [c for c in A.calls(r.node) if dotted(c.func) == "fsSymlink"]
-    ctx.check("R2", r, len(sym) == 1 and A.unparse(sym[0].args[1]) == f"{mem}.linkname", "symlink-target-verbatim", "the symlink target is read back verbatim")
+    ctx.check("R2", r, len(sym) == 1 and len(sym[0].args) > 1 and A.unparse(sym[0].args[1]) == f"{mem}.linkname", "symlink-target-verbatim", "the symlink target is read back verbatim")
     ctx.floor("R2", 20)
 
     # ---- R3 name normalisation ----------------------------------------------------------------------------
-    loc = [v for t_, v, _ in A.assignments(r.node, "location")]
-    tgt = [v for t_, v, _ in A.assignments(r.node, "target")]
-    ctx.require(len(loc) == 1 and len(tgt) == 1, "archive_to_fsobj: location/target normalisation not found")
+    # location: the first argument of every entry constructor; target: the key the hardlink branch looks up in the
+    # inode cache (`<inode> = <cache>.get(<target>)`)
+    lookups = M.find(r.node, "$inode = $inodes.get($target)")
+    loc = [v for t_, v, _ in A.assignments(r.node) if isinstance(t_, ast.Name) and t_.id in locnames]
+    tgt = [v for t_, v, _ in A.assignments(r.node, lookups[0]["target"])] if len(lookups) == 1 else []
+    ctx.require(len(locnames) == 1 and len(loc) == 1 and len(tgt) == 1, "archive_to_fsobj: location/target normalisation not found")
+    locv = next(iter(locnames))
+    RE = dict(lookups[0].env)          # inode, inodes, target as spelled today
+    sepm = M.one(r.node, "$psep = os.path.sep")
+    sep = "$psep" if sepm else "os.path.sep"
+    NE = {"mem": mem, **({"psep": sepm["psep"]} if sepm else {})}
 
     def norm_form(e, attr):
-        t = A.unparse(e)
-        return t in (f"os.path.abspath(os.path.join(psep, {mem}.{attr}.strip(psep)))", f"os.path.abspath(os.path.join(psep, {mem}.{attr}))")
+        return any(M.pat(p).matches(e, NE) for p in (f"os.path.abspath(os.path.join({sep}, $mem.{attr}.strip({sep})))", f"os.path.abspath(os.path.join({sep}, $mem.{attr}))"))
     ctx.check("R3", r, norm_form(loc[0], "name"), f"name-normalised:{A.unparse(loc[0])[:60]}", "member names are normalised by abspath(join('/', name))",
               f"member name normalisation is `{A.unparse(loc[0])}`", node=loc[0])
     ctx.check("R3", r, norm_form(tgt[0], "linkname"), f"linkname-normalised:{A.unparse(tgt[0])[:60]}", "hardlink targets are normalised the same way as member names (they key the same inode cache)",
@@ -114,43 +130,51 @@ def run(ctx):
             if A.call_attr(c) in ("strip", "lstrip", "rstrip") and c.args:
                 n_strip += 1
                 lit = A.try_literal(c.args[0], default=None)
-                if lit is None and A.unparse(c.args[0]) == "psep":
+                if lit is None and (A.unparse(c.args[0]) == "os.path.sep" or isinstance(c.args[0], ast.Name) and M.has(f.node, "$p = os.path.sep", {"p": c.args[0].id})):
                     lit = os.sep
                 ok = isinstance(lit, str) and len(set(lit)) == 1
                 ctx.check("R3", f, ok, f"strip-charset:{A.unparse(c)[-24:]}", f"`{A.unparse(c)[-40:]}` strips a single character",
                           f"`{A.unparse(c)}` strips a SET of characters {sorted(set(lit)) if isinstance(lit, str) else '?'}: a leading '.' of a dot-named top-level entry ('./.keep') is eaten along with the './' prefix", node=c)
     ctx.check("R3", r, n_strip >= 4, f"strip-sites:{n_strip}", f"{n_strip} strip sites in the tar writer/reader inspected")
-    rel = [A.unparse(v) for t_, v, _ in A.assignments(w.node) if A.unparse(t_) == "t.name"]
-    ctx.check("R3", w, any(x.startswith(("f'./{", 'f"./{')) and ".location.lstrip('/')}" in x for x in rel), "relative-name", "relative member names are './' + location without its leading '/'")
-    ln = [A.unparse(v) for t_, v, _ in A.assignments(add.node) if A.unparse(t_) == "t.linkname"]
-    ctx.check("R3", add, ln == ["'./{}'.format(existing.location.lstrip('/'))"], "hardlink-name", "a hardlink names its target the same way ('./' + location)")
+    rel = [v for t_, v, _ in A.assignments(w.node) if A.unparse(t_) == f"{tv}.name"]
+    ctx.check("R3", w, any(isinstance(x, ast.JoinedStr) and A.fstring_prefix(x) == "./" and len(x.values) > 1 and isinstance(x.values[1], ast.FormattedValue)
+                           and M.pat("$$o.location.lstrip('/')").matches(x.values[1].value) for x in rel), "relative-name", "relative member names are './' + location without its leading '/'")
+    # writer side of the hardlink bookkeeping, bound by role: the member being added is the first argument of
+    # addfile(<t>, fileobj=<data>); <t> = fsobj_to_tarinfo(<x>, ...); <key> = (<x>.dev, <x>.inode); <existing> = <cache>.get(<key>)
+    adds = [c for c in A.calls(add.node) if A.call_attr(c) == "addfile" and any(k.arg == "fileobj" for k in c.keywords)]
+    at = A.unparse(adds[0].args[0]) if adds and adds[0].args and isinstance(adds[0].args[0], ast.Name) else None
+    am = M.one(add.node, "$t = fsobj_to_tarinfo($x, ...)", {"t": at}) if at else None
+    em = M.one(add.node, "$existing = $inodes.get($key)", am.env) if am else None
+    km = M.one(add.node, "$key = ($x.dev, $x.inode)\n$existing = $inodes.get($key)", em.env) if em else None
+    AE = dict(em.env) if em else dict(am.env) if am else {}
+    ln = [v for t_, v, _ in A.assignments(add.node) if A.unparse(t_) == f"{at}.linkname"]
+    ctx.check("R3", add, len(ln) == 1 and em is not None and M.pat("'./{}'.format($existing.location.lstrip('/'))").matches(ln[0], AE) is not None, "hardlink-name", "a hardlink names its target the same way ('./' + location)")
     ctx.floor("R3", 8)
 
     # ---- R4 every regular member carries its data ------------------------------------------------------------
     g = CFG.cfg_of(add.node)
-    adds = [c for c in A.calls(add.node) if A.call_attr(c) == "addfile" and any(k.arg == "fileobj" for k in c.keywords)]
-    ctx.require(len(adds) == 1, "add_contents_to_tarfile: addfile(t, fileobj=data) not found")
+    ctx.require(len(adds) == 1 and at is not None, "add_contents_to_tarfile: addfile(t, fileobj=data) not found")
     dvar = A.unparse([k.value for k in adds[0].keywords if k.arg == "fileobj"][0])
     none_sets = [st for t_, v, st in A.assignments(add.node, dvar) if A.is_const(v, None)]
     good = [st for t_, v, st in A.assignments(add.node, dvar) if not A.is_const(v, None)]
-    zero = [st for t_, v, st in A.assignments(add.node) if A.unparse(t_) == "t.size" and A.is_const(v, 0)]
+    zero = [st for t_, v, st in A.assignments(add.node) if A.unparse(t_) == f"{at}.size" and A.is_const(v, 0)]
     ctx.require(none_sets and good and zero, "add_contents_to_tarfile: data/size assignments not found")
     goal = g.node_of(A.stmt_of(adds[0]))
     avoid = {g.node_of(s) for s in good + zero}
     path = g.find_path([g.node_of(none_sets[0])], lambda n: n is goal, avoid=lambda n: n in avoid)
     ctx.check("R4", add, path is None, "regular-member-without-data", "every path to addfile(t, fileobj=data) either made the member a zero-size hardlink or loaded the file's data",
               "add_contents_to_tarfile can add a regular member that announces its size but carries no data (entry shares an inode key with an earlier one but cannot be hardlinked to it — e.g. every entry without dev/inode): the archive is corrupt from that member on", node=adds[0], witness=g.fmt_path(path) if path else None)
-    lnk = [st for t_, v, st in A.assignments(add.node) if A.unparse(t_) == "t.type" and A.unparse(v) == "tarfile.LNKTYPE"]
+    lnk = [st for t_, v, st in A.assignments(add.node) if A.unparse(t_) == f"{at}.type" and A.unparse(v) == "tarfile.LNKTYPE"]
     ctx.require(lnk, "add_contents_to_tarfile: hardlink emission not found")
-    guards = [A.unparse(p.test) for p in A.parents(lnk[0]) if isinstance(p, ast.If)]
-    ctx.check("R4", add, any("_can_be_hardlinked(existing)" in t for t in guards) and any("existing is not None" in t for t in guards), "hardlink-guard", "a hardlink is emitted only for an entry that can be hardlinked to an earlier one with the same (dev, inode)")
-    ctx.check("R4", add, "key = (x.dev, x.inode)" in A.unparse(add.node) and ("inodes[key] = x" in A.unparse(add.node) or "inodes.setdefault(key, x)" in A.unparse(add.node)), "inode-key", "hardlink groups are keyed by (dev, inode)")
-    t = A.unparse(add.node)
-    ctx.check("R4", add, t.index("contents_set.dirs()") < t.index("iterdirs(invert=True)"), "dirs-first", "directories are written first, then everything else")
+    guards = [p.test for p in A.parents(lnk[0]) if isinstance(p, ast.If)]
+    ctx.check("R4", add, em is not None and any(M.has(t, "$_._can_be_hardlinked($existing)", AE) for t in guards) and any(M.has(t, "$existing is not None", AE) for t in guards), "hardlink-guard", "a hardlink is emitted only for an entry that can be hardlinked to an earlier one with the same (dev, inode)")
+    ctx.check("R4", add, km is not None and (M.has(add.node, "$inodes[$key] = $x", AE) or M.has(add.node, "$inodes.setdefault($key, $x)", AE)), "inode-key", "hardlink groups are keyed by (dev, inode)")
+    d1, d2 = M.one(add.node, "contents_set.dirs()"), M.one(add.node, "contents_set.iterdirs(invert=True)")
+    ctx.check("R4", add, d1 is not None and d2 is not None and d1.node.lineno < d2.node.lineno, "dirs-first", "directories are written first, then everything else")
     ctx.floor("R4", 4)
 
     # ---- R5 reader inode cache ------------------------------------------------------------------------------------
-    reg = [st for t_, v, st in A.assignments(r.node) if A.unparse(t_) == "inodes[location]"]
+    reg = [st for t_, v, st in A.assignments(r.node) if A.unparse(t_) == f"{RE['inodes']}[{locv}]"]
     ctx.require(reg, "archive_to_fsobj: inode cache registration not found")
 
     def branch(st):
@@ -167,24 +191,28 @@ def run(ctx):
               "archive_to_fsobj registers only non-link members in the inode cache: a hardlink to a hardlink cannot be resolved", node=reg[0])
     lk = [n for n in A.body_walk(r.node) if isinstance(n, ast.If) and A.unparse(n.test) == f"{mem}.islnk()"]
     ctx.require(lk, "archive_to_fsobj: hardlink branch not found")
-    tb, eb = A.unparse(ast.Module(body=lk[0].body, type_ignores=[])), A.unparse(ast.Module(body=lk[0].orelse, type_ignores=[]))
-    ctx.check("R5", r, "inode = inodes.get(target)" in tb and "d['inode'] = inode" in tb and "raise AssertionError" in tb, "link-shares-inode", "a hardlink member gets the inode of its target; an unknown target is an error")
-    ctx.check("R5", r, "_unique_inode()" in eb, "fresh-inode", "any other regular member gets a fresh inode")
-    ctx.check("R5", r, "d['dev'] = dev" in A.unparse(r.node) and "dev = _unique_inode()" in A.unparse(r.node), "one-dev-per-archive", "all members of one archive share one synthetic device number")
+    ctx.check("R5", r, M.has(lk[0].body, "$inode = $inodes.get($target)\nif $inode is None:\n    raise AssertionError(...)\n$d['inode'] = $inode", RE) and M.one(lk[0].body, "$d['inode'] = $inode", RE)["d"] in dnames,
+              "link-shares-inode", "a hardlink member gets the inode of its target; an unknown target is an error")
+    ctx.check("R5", r, M.has(lk[0].orelse, "_unique_inode()"), "fresh-inode", "any other regular member gets a fresh inode")
+    devs = [m for m in M.find(r.node, "$dev = _unique_inode()") if any(m.node is s for s in r.node.body)]
+    ctx.check("R5", r, any(m2["d"] in dnames for m in devs for m2 in M.find(loop[0], "$d['dev'] = $dev", m.env)), "one-dev-per-archive", "all members of one archive share one synthetic device number")
     ctx.floor("R5", 4)
 
     # ---- R6 symlinked directories resolved to a fixpoint ---------------------------------------------------------------
     cv = P.func(MOD, "convert_archive")
-    rew = [n for n in A.body_walk(cv.node) if isinstance(n, ast.For) and "syms.update(affected.change_offset(" in A.unparse(n)]
+    # <raw_syms> = <t>.links(); <syms> = contentsSet(<raw_syms>): the three sets the relocation works on
+    sm = M.one(cv.node, "$raw_syms = $t.links()\n$syms = contents.contentsSet($raw_syms)")
+    SE = dict(sm.env) if sm else {}
+    rew = [n for n in A.body_walk(cv.node) if isinstance(n, ast.For) and M.has(n, "$syms.update($_.change_offset(...))", SE)]
     ctx.require(len(rew) == 1, "convert_archive: symlink rewrite loop not found")
     wh = [p for p in A.parents(rew[0]) if isinstance(p, ast.While)]
     restart = any(isinstance(s, ast.Break) for s in rew[0].body) and any(isinstance(s, ast.Break) for s in rew[0].orelse)
     ctx.check("R6", cv, bool(wh) and restart, "sym-rewrite-fixpoint", "symlinks beneath symlinked directories are relocated until nothing changes (restart after each rewrite, stop on a clean pass)",
               "convert_archive relocates symlinks beneath symlinked directories in a single pass: a relocated symlink is never re-examined against the symlinks it now sits beneath (three levels of nesting resolve differently from a live merge)", node=rew[0])
-    t = A.unparse(cv.node)
-    ctx.check("R6", cv, "syms = sorted(syms, reverse=True)" in t and "additions.extend(affected.change_offset(x.location, x.resolved_target))" in t and "t.update(additions)" in t, "children-relocated", "entries beneath a symlinked directory move to the resolved target")
-    ctx.check("R6", cv, "t.add_missing_directories()" in t, "dirs-completed", "directories made necessary by relocation are added")
-    ctx.check("R6", cv, t.index("t.difference_update(raw_syms)") < t.index("t.update(syms)"), "syms-replaced", "the raw symlinks are replaced by the relocated ones")
+    ctx.check("R6", cv, sm is not None and M.has(cv.node, "$syms = sorted($syms, reverse=True)\nfor $x in $syms:\n    $additions.extend($aff.change_offset($x.location, $x.resolved_target))\n$t.update($additions)", SE),
+              "children-relocated", "entries beneath a symlinked directory move to the resolved target")
+    ctx.check("R6", cv, sm is not None and M.has(cv.node, "$t.add_missing_directories()", SE), "dirs-completed", "directories made necessary by relocation are added")
+    ctx.check("R6", cv, sm is not None and M.has(cv.node, "$t.difference_update($raw_syms)\n$t.update($syms)", SE), "syms-replaced", "the raw symlinks are replaced by the relocated ones")
     ctx.floor("R6", 4)
 
     # ---- R7 empty archive --------------------------------------------------------------------------------------------------
@@ -203,9 +231,11 @@ def run(ctx):
     h = [x for x in hs if x.type is not None and A.unparse(x.type) in accept]
     if h:
         lits = {s for s in A.str_constants(h[0])}
-        ctx.check("R7", gc, "empty file" in lits and "empty header" in lits and "endswith" in A.unparse(h[0]), "empty-messages", "both empty-archive messages are recognised (suffix match: newer tarfile prefixes the message)",
+        ctx.check("R7", gc, "empty file" in lits and "empty header" in lits and any(A.call_attr(c) == "endswith" for c in A.calls(h[0])), "empty-messages", "both empty-archive messages are recognised (suffix match: newer tarfile prefixes the message)",
                   f"the handler recognises {sorted(lits)} only", node=h[0])
-        ctx.check("R7", gc, "tar_handle = []" in A.unparse(h[0]), "reads-as-empty", "an empty archive is read as no members")
+        # the handle is whatever generate_contents hands to convert_archive; the handler replaces it by no members
+        th = M.one(gc.node, "return convert_archive($th)")
+        ctx.check("R7", gc, th is not None and M.has(h[0].body, "$th = []", th.env), "reads-as-empty", "an empty archive is read as no members")
         ctx.check("R7", gc, any(isinstance(n, ast.Raise) for n in A.walk(h[0])), "other-errors-propagate", "any other read error propagates")
     ctx.floor("R7", 4)
 
